@@ -25,6 +25,19 @@ MUTATIONS = [
  dict(name="raw-eagain-loop", props=["C09"], edits=[("iv_event_raw_posix.c", "\t} while (ret < 0 && errno == EINTR);\n}", "\t} while (ret < 0 && (errno == EINTR || errno == EAGAIN));\n}")]),
 ]
 
+MUTATIONS += [
+ dict(name="work-no-self-rekick", props=["C12"], edits=[("iv_work.c", "\t\t * called again, so that we don't deadlock.\n\t\t */\n\t\tiv_event_post(&thr->kick);", "\t\t * called again, so that we don't deadlock.\n\t\t */")]),
+ dict(name="work-kicked-not-set", props=["C12"], edits=[("iv_work.c", "\t\tthr->kicked = 1;\n", "")]),
+ dict(name="work-post-owner-inverted", props=["C12"], edits=[("iv_work.c", "\t\tif (iv_list_empty(&pool->work_done))\n\t\t\tiv_event_post(&pool->ev);", "\t\tif (!iv_list_empty(&pool->work_done))\n\t\t\tiv_event_post(&pool->ev);")]),
+ dict(name="work-max-threads-plus-one", props=["C12"], edits=[("iv_work.c", "\t} else if (pool->started_threads < this->max_threads) {", "\t} else if (pool->started_threads <= this->max_threads) {")]),
+ dict(name="work-local-completion-skipped-order", props=["C12"], edits=[("iv_work.c", "\t\twork->work(work->cookie);\n\t\twork->completion(work->cookie);", "\t\twork->completion(work->cookie);\n\t\twork->work(work->cookie);")]),
+ dict(name="work-die-no-owner-post", props=["C13"], edits=[("iv_work.c", "\tif (pool->shutting_down && !pool->started_threads)\n\t\tiv_event_post(&pool->ev);\n}", "}")]),
+ dict(name="work-free-with-done-pending", props=["C13", "C12"], edits=[("iv_work.c", "\t\tif (!pool->started_threads && iv_list_empty(&pool->work_done)) {", "\t\tif (!pool->started_threads) {")]),
+ dict(name="thread-destructor-no-post", props=["C13"], edits=[("iv_thread_posix.c", "\tiv_event_post(&thr->dead);\n}", "}")]),
+ dict(name="thread-no-join", props=["C13"], edits=[("iv_thread_posix.c", "\tpthr_join(thr->thread_id, NULL);\n", "")]),
+ dict(name="work-stop-hook-skipped-on-timeout", props=["C13"], edits=[("iv_work.c", "\t} else {\n\t\tiv_list_del_init(&thr->list);\n\t\t__iv_work_thread_die(thr);\n\t}", "\t} else {\n\t\tvoid (*ts)(void *) = pool->thread_stop;\n\t\tiv_list_del_init(&thr->list);\n\t\tpool->thread_stop = NULL;\n\t\t__iv_work_thread_die(thr);\n\t\tpool->thread_stop = ts;\n\t}")]),
+]
+
 # mutation lists contributed per subsystem
 import glob as _glob, importlib.util as _iu, os as _os
 for _f in sorted(_glob.glob(_os.path.join(_os.path.dirname(_os.path.abspath(__file__)), "mutations_c*.py"))):
